@@ -329,6 +329,9 @@ def run(chk):
     docs.append(("constcompletion", P.HEAD + "  TSource { id: t0; onPlain: { a.poke(); [] } }\n  TSource { id: t1; onPlain: { a.poke(); 1 } }\n  TSource { id: t2; onPlain: { a.poke(); \"s\" } }\n"
                  "  TSource { id: t3; onPlain: { if (a.flag) { null } else { true } } }\n  TSource { id: t4; onPlain: { a.poke(); TSource.ModeA } }\n  TSource { id: t5; onPlain: { [\"x\"] } }\n"
                  "  TSource { id: t6; onPlain: { a.ival } }\n  TSource { id: t7; onPlain: { 1.5 } }\n}\n", [VERIF_METATYPES], True))
+    # a property of an enum type that also has a flags type (like Qt::Orientation / Qt::Orientations), bound to a choice between two enumerators
+    docs.append(("enumbase", P.HEAD + "  TSource { id: t0; optOne: a.flag ? TSource.OptX : TSource.OptY }\n  TSource { id: t1; optOne: a.optOne }\n"
+                 "  TSource { id: t2; opts: a.flag ? TSource.OptX : TSource.OptY }\n  TSource { id: t3; optOne: { if (a.flag) { return TSource.OptZ } return a.optOne } }\n}\n", [VERIF_METATYPES], True))
     docs.append(("ctxquote", P.HEAD + "  TSource { id: t0; text: a.flag ? qsTr(\"x\") : a.text }\n}\n", [VERIF_METATYPES], True))
     for n, g in enumerate(GADGET_DOCS):
         docs.append(("gadget%d" % n, g, [QT5_METATYPES, VERIF_T_METATYPES], False))
